@@ -111,6 +111,15 @@ theorem tei_bestmove_legal_minimax_table (env : Env) (hC : Collaborators env)
       (Tak.Proofs.isNormal_iff m).2 (Tak.Proofs.legalShape_normal hshape), ?_, hs'⟩
     exact tei_one_bestmove_at env hC pre post args st p a hpre htold hargs m rest (by rw [hsearch, hr])
 
+/-- the hypothesis `hne` of `tei_bestmove_legal_minimax` holds whenever the search is not cancelled (no deadline hit, no
+`stop`): on a live position an uncancelled `Analyze` of depth ≥ 1 returns a non-empty PV — so such a `go` is answered by
+**exactly one** `bestmove` line -/
+theorem minimax_pv_nonempty (basis : Array W) (ev : Pos → Int) (sym : Pos → List H) (cfg : Search.Cfg)
+    (hdepth : 1 ≤ cfg.depth) (o : Oracle Move) (hnc : NoCancel o) (p : Pos) (hlive : p.gameOver.1 = false)
+    (s s' : Eng Move) (r : List Move × Int × Stats)
+    (hrun : Search.analyze (takGame basis ev sym) cfg o p s = .ok (r, s')) : r.1 ≠ [] :=
+  C04.analyze_pv_nonempty (g := takGame basis ev sym) hnc cfg hdepth p hlive s _ hrun
+
 /-! ### non-vacuity: a session with an environment whose searcher *is* the alpha-beta model -/
 
 namespace ExMM
